@@ -126,7 +126,9 @@ PROPS["C01"] = {
     "level_note": "Assumed: clvmr Allocator accessor contracts (abstract immutable tree), bitflags semantics with constants read from flags.rs each run, 2-byte cost table entries (decided by native-eval under C04). Error codes are not part of the contract, accept/reject and the decoded value are.",
     "components": [V("conditions_effects"), V("mempool_visitor"), V("validate_conds"), V("drivers"), V("conditions_record"), V("conditions_aggsig"),
                    # ground verdicts the rules prescribe (concurrent spends, announcements, messages, ephemeral coins, limits)
-                   N("native_relations_ground", "relations_ground", thorough_task="relations_ground:thorough")],
+                   N("native_relations_ground", "relations_ground", thorough_task="relations_ground:thorough"),
+                   # the mempool eligibility flags of the reported summary (dedup, fast-forward) across spends
+                   N("native_dedup_ground", "dedup_ground")],
     "assumptions": [
         "clvmr::Allocator accessor contracts over an abstract immutable tree (shims/clvmr.rs)",
         "bitflags contains() == bit test on the constants read from flags.rs",
